@@ -173,8 +173,10 @@ def _post_buffer(geometry, time_buffer, freq_buffer, kwargs, result):
             so2 = shapely.transform(so, lambda x: x * f)
             sr2 = shapely.transform(sr, lambda x: x * f)
             outside = so2.difference(sr2)
+            # how far does the uncovered part of the original stick out?  (densified: a straight piece that leaves and
+            # re-enters the result has both end points ON the result's outline)
             far = 0.0 if outside.is_empty else max(
-                (shapely.Point(p).distance(sr2) for p in shapely.get_coordinates(outside)), default=0.0)
+                (shapely.Point(p).distance(sr2) for p in shapely.get_coordinates(shapely.segmentize(outside, max(0.25, outside.length / 2000.0)))), default=0.0)
             # tolerance: 1e-6 of a buffer unit (GEOS round-off on clipped outlines)
             if far > 1e-6:
                 c.violate("contains_original", _key("contains_original", sfx), observed={"max_distance_in_buffer_units": far}, expected="result covers original", spec=sp)
@@ -339,6 +341,16 @@ def run(ctx):
     ctx.case(("MultiPoint", "directed", "zero_buffer_edge"), {"g": mp, "tb": 0.1, "fb": 0.0})
     judge(ctx, mp, 0.1, 0.0)
 
+    # long contours (a pitch track sampled every few milliseconds: thousands of vertices)
+    if ctx.shard == 0 or ctx.thorough:
+        for nv in (2500, 4500):
+            t0 = rng.choice([1.0, 30.0])
+            pts = [[t0 + 0.004 * i * rng.choice([1, 1, 5]), 2000.0 + 800.0 * math.sin(i / 7.0) + rng.uniform(-20, 20)] for i in range(nv)]
+            pts = sorted(pts)
+            line = {"type": "LineString", "coordinates": pts}
+            for tb, fb in ((0.0005, 5.0), (0.01, 100.0), (0.0, 0.0)):
+                ctx.case(("LineString", "long_contour", nv), {"g": {"type": "LineString", "n_vertices": nv}, "tb": tb, "fb": fb})
+                judge(ctx, line, tb, fb)
     n = ctx.scale(120, 900)
     for typ in geoms.TYPES:
         for i in range(n):
